@@ -138,8 +138,11 @@ def load(repo):
     # attributes on the enum itself (skip)
     head = txt[:m.start()]
     out = []
-    for sm in re.finditer(r'#\[logos\(([^\]]*)\)\]', head[-600:]):
-        km = re.search(r'skip\s+r(#*)"(.*?)"\1', sm.group(1))
+    for ln in head[-800:].splitlines():
+        ln = ln.strip()
+        if not ln.startswith("#[logos("):
+            continue
+        km = re.search(r'skip\s+r(#*)"(.*?)"\1', ln)
         if km:
             out.append({"kind": "skip", "pattern": km.group(2), "callback": None, "variant": None})
     # body of the enum: up to the matching close brace at column 0
@@ -153,6 +156,12 @@ def load(repo):
         am = re.match(r'#\[(regex|token)\(\s*r(#*)"(.*?)"\2\s*(?:,\s*(.*?))?\)\]', s)
         if am:
             pending.append({"kind": am.group(1), "pattern": am.group(3), "callback": (am.group(4) or None)})
+            continue
+        am = re.match(r'#\[(regex|token)\(\s*"((?:[^"\\\\]|\\\\.)*)"\s*(?:,\s*(.*?))?\)\]', s)
+        if am:
+            if "\\" in am.group(2):
+                raise RegexError("escaped plain string literal in attribute: %r" % s)
+            pending.append({"kind": am.group(1), "pattern": am.group(2), "callback": (am.group(3) or None)})
             continue
         if s.startswith("#["):
             continue
